@@ -6,6 +6,7 @@
 //   C01 only RuntimeError leaves, no UB or invalid access; C02 static == dynamic type; C05 lvalue arguments
 //   unchanged; C03 / C10 the per-builtin oracle.
 #include "vx_harness.h"
+#include <blocc/collection.h>
 #include VX_HDR
 #include <cmath>
 #include <cstring>
@@ -30,6 +31,10 @@ using namespace vx;
 #define ORC_STRPOS 15
 #define ORC_TRIM 16
 #define ORC_HEX 17
+#define ORC_AT 18
+#define ORC_COUNT 19
+#define ORC_PUT 20
+#define ORC_DELETE 21
 #ifndef VX_ORACLE
 #define VX_ORACLE ORC_NONE
 #endif
@@ -46,7 +51,10 @@ using namespace vx;
 #define VX_K2 K_INTEGER
 #endif
 
-struct Arg { int kind; bool isnull, lval, b; long i; double d; int len; unsigned char c[4]; Value* v; };
+#ifndef VX_TLEN
+#define VX_TLEN 2
+#endif
+struct Arg { int kind; bool isnull, lval, b; long i; double d; int len; unsigned char c[4]; long e[3]; bool en[3]; Value* v; };
 
 static void mk(Arg& o, int kind, int s)
 {
@@ -71,9 +79,30 @@ static void mk(Arg& o, int kind, int s)
       o.v = new Value(t); if (o.isnull) o.v->swap(Value(Value::type_tabchar));
     }
     break; }
+  case K_TABI: case K_TABD: {
+    /* table of VX_TLEN elements (symbolic values, each possibly a typed null) */
+    o.len = VX_TLEN;
+    Type tt(kind == K_TABI ? Type::INTEGER : Type::NUMERIC, 0, 1);
+    Collection* col = new Collection(tt);
+    col->reserve(VX_TLEN);
+    for (int k = 0; k < VX_TLEN; ++k) {
+      o.e[k] = in_long(8 + 3 * s + k); o.en[k] = in_bool(16 + 3 * s + k);
+      if (kind == K_TABI) col->push_back(Value(Integer(o.e[k]))); else col->push_back(Value(Numeric((double)o.e[k])));
+      if (o.en[k]) col->at(k).swap(Value(kind == K_TABI ? Value::type_integer : Value::type_numeric));
+      col->at(k).to_lvalue(true);
+    }
+    o.v = new Value(col);
+    if (o.isnull) o.v->swap(Value(tt));
+    break; }
   default: o.v = new Value(); o.isnull = true; break;
   }
   o.v->to_lvalue(o.lval);
+}
+static bool elem_is(Value& x, int kind, long e, bool en)
+{
+  Value& v = x.deref_value();
+  if (kind == K_TABI) return v.type() == Value::type_integer && v.isNull() == en && (en || *v.integer() == e);
+  return v.type() == Value::type_numeric && v.isNull() == en && (en || *v.numeric() == (double)e);
 }
 
 static bool unchanged(const Arg& o)
@@ -100,6 +129,13 @@ static bool unchanged(const Arg& o)
     if ((int)s->size() != o.len) return false;
     for (int k = 0; k < VX_SLEN; ++k) if (k < o.len && (unsigned char)(*s)[k] != o.c[k]) return false;
     return true; }
+  case K_TABI: case K_TABD: {
+    if (!(v.type() == Type(o.kind == K_TABI ? Type::INTEGER : Type::NUMERIC, 0, 1))) return false;
+    if (o.isnull) return true;
+    Collection* t = v.collection();
+    if ((int)t->size() != VX_TLEN) return false;
+    for (int k = 0; k < VX_TLEN; ++k) if (!elem_is(t->at(k), o.kind, o.e[k], o.en[k])) return false;
+    return true; }
   default: return v.type() == Value::type_no_type;
   }
 }
@@ -109,11 +145,17 @@ extern "C" void vx_nary()
   static Context& ctx = *new Context(1, 2);
   Arg A[3];
   mk(A[0], VX_K0, 0);
+#ifdef VX_LVAL0
+  verif_assume(A[0].lval);            /* the receiver is held by a variable */
+  A[0].v->to_lvalue(true);
+#endif
   if (VX_NARGS > 1) mk(A[1], VX_K1, 1);
   if (VX_NARGS > 2) mk(A[2], VX_K2, 2);
   SymExpr* e0 = new SymExpr(A[0].v); SymExpr* e1 = VX_NARGS > 1 ? new SymExpr(A[1].v) : nullptr; SymExpr* e2 = VX_NARGS > 2 ? new SymExpr(A[2].v) : nullptr;
   std::vector<Expression*> args(VX_NARGS);
   args[0] = e0; if (VX_NARGS > 1) args[1] = e1; if (VX_NARGS > 2) args[2] = e2;
+  std::vector<Expression*> margs(VX_NARGS > 1 ? VX_NARGS - 1 : 0);      /* member methods: receiver e0, arguments e1.. */
+  if (VX_NARGS > 1) margs[0] = e1; if (VX_NARGS > 2) margs[1] = e2;
   (void)e0; (void)e1; (void)e2;
 #ifdef VX_KNOWN
   VX_KNOWN;
@@ -127,7 +169,11 @@ extern "C" void vx_nary()
   VX_WITNESS();
   (void)code;
   /* C05: frame condition - also when the node raised */
+#ifndef VX_MUTATES0
   if (A[0].lval) verif_assert(unchanged(A[0]), "C05/C10: lvalue argument 1 unchanged by evaluation");
+#else
+  if (thrown) verif_assert(unchanged(A[0]) || !A[0].lval, "C09: a rejected in-place method leaves the receiver unchanged");
+#endif
   if (VX_NARGS > 1 && A[1].lval) verif_assert(unchanged(A[1]), "C05/C10: lvalue argument 2 unchanged by evaluation");
   if (VX_NARGS > 2 && A[2].lval) verif_assert(unchanged(A[2]), "C05/C10: lvalue argument 3 unchanged by evaluation");
   if (!thrown) {
@@ -215,6 +261,46 @@ extern "C" void vx_nary()
       Literal* out = r->literal();
       verif_assert(r->type() == Value::type_literal && (long)out->size() == n, "C10: lsubstr/rsubstr length is min(count, size), 0 for negative counts");
       for (int k = 0; k < VX_SLEN; ++k) if (k < n) verif_assert((unsigned char)(*out)[k] == A[0].c[(from + k) % 4], "C10: lsubstr/rsubstr content"); } }
+#elif VX_ORACLE == ORC_AT
+  /* x.at(p): tables 0-based; out-of-range or null position (or null receiver) raises the index error */
+  if (VX_K1 == K_INTEGER) {
+    bool inrange = !A[0].isnull && !A[1].isnull && A[1].i >= 0 && A[1].i < (long)A[0].len;
+    if (!inrange) verif_assert(thrown && code == EXC_RT_INDEX_RANGE_S, "C09: at() raises the index error for every out-of-range or null position");
+    else { verif_assert(!thrown, "C09: at() succeeds for an in-range position");
+      if (!thrown) {
+        if (VX_K0 == K_TABI || VX_K0 == K_TABD) verif_assert(elem_is(*r, VX_K0, A[0].e[A[1].i % 3], A[0].en[A[1].i % 3]), "C09: table.at(p) is element p");
+        else verif_assert(r->type() == Value::type_integer && !r->isNull() && *r->integer() == (long)A[0].c[A[1].i % 4], "C09: string/bytes.at(p) is byte p as 0..255"); } }
+  }
+#elif VX_ORACLE == ORC_COUNT
+  { verif_assert(!thrown, "C09: count() is total");
+    if (!thrown) verif_assert(r->type() == Value::type_integer && (A[0].isnull ? r->isNull() : (!r->isNull() && *r->integer() == (long)A[0].len)), "C09: count() is the number of elements / bytes, null for a null receiver"); }
+#elif VX_ORACLE == ORC_PUT
+  /* t.put(p, x) on a table of integers/decimals */
+  if ((VX_K0 == K_TABI || VX_K0 == K_TABD) && VX_K1 == K_INTEGER) {
+    bool inrange = !A[0].isnull && !A[1].isnull && A[1].i >= 0 && A[1].i < (long)A[0].len;
+    if (!inrange) verif_assert(thrown && code == EXC_RT_INDEX_RANGE_S, "C09: put() raises the index error for every out-of-range or null position");
+    if (!thrown && !A[0].isnull) {
+      Collection* t = A[0].v->collection();
+      verif_assert((int)t->size() == VX_TLEN, "C09: put() never changes the table length");
+      for (int k = 0; k < VX_TLEN; ++k) {
+        Value& ev = t->at(k).deref_value();
+        verif_assert(ev.type() == (VX_K0 == K_TABI ? Value::type_integer : Value::type_numeric), "C09: every element keeps the table's element type after put()");
+        if (k != A[1].i) verif_assert(elem_is(t->at(k), VX_K0, A[0].e[k], A[0].en[k]), "C09: put() changes only the addressed element");
+      }
+      if ((VX_K0 == K_TABI && VX_K2 == K_INTEGER) || (VX_K0 == K_TABD && VX_K2 == K_NUMERIC)) {
+        Value& ev = t->at(A[1].i % 3).deref_value();
+        if (VX_K0 == K_TABI) verif_assert(ev.isNull() == A[2].isnull && (A[2].isnull || *ev.integer() == A[2].i), "C09: put() stores the given value");
+      }
+    }
+  }
+#elif VX_ORACLE == ORC_DELETE
+  if ((VX_K0 == K_TABI || VX_K0 == K_TABD) && VX_K1 == K_INTEGER) {
+    bool inrange = !A[0].isnull && !A[1].isnull && A[1].i >= 0 && A[1].i < (long)A[0].len;
+    if (!inrange) verif_assert(thrown && code == EXC_RT_INDEX_RANGE_S, "C09: delete() raises the index error for every out-of-range or null position");
+    else { verif_assert(!thrown, "C09: delete() succeeds for an in-range position");
+      if (!thrown) { Collection* t = A[0].v->collection(); verif_assert((int)t->size() == VX_TLEN - 1, "C09: delete() removes exactly one element");
+        for (int k = 0; k < VX_TLEN - 1; ++k) verif_assert(elem_is(t->at(k), VX_K0, A[0].e[k < A[1].i ? k : k + 1], A[0].en[k < A[1].i ? k : k + 1]), "C09: delete() keeps the other elements in order"); } }
+  }
 #elif VX_ORACLE == ORC_TRIM
   if (VX_K0 == K_LITERAL) { verif_assert(!thrown, "C10: trim is total");
     if (!thrown && !A[0].isnull && !r->isNull()) { Literal* out = r->literal();
